@@ -57,9 +57,9 @@ def drawFields (n : IPNet) : Bool × Nat × Nat :=
 /-- the configured entry as the registrar model sees it.  `Registrar.Subnet.hosts = 2 ^ (32 - ones)`; the
 model's `ones` is therefore `32 - (bits - ones)`: the prefix length of an IPv4 network, the prefix length
 minus 96 of an IPv4-mapped one (the same number of host bits, and `IPNet.Contains` of an IPv4 address cuts a
-16-byte mask to its last 4 bytes).  Networks with 32 or more host bits and an IPv4 base (`/0`, mapped `/96`)
-make the code's `uint32` host count wrap to 0 and `crypto/rand.Int` panic: outside the model (assumption of
-the plan). -/
+16-byte mask to its last 4 bytes).  A network with 32 host bits and an IPv4 base (`/0`, mapped `/96`) has
+`ones = 0`, `hosts = 2^32`: the code counts the hosts in a `big.Int` (the `uint32` count it used before wrapped to 0
+and made `crypto/rand.Int` panic; repaired, `CJ.Props.C12Cidr.full_range_substitute`). -/
 def toSubnet (n : IPNet) (weight port : Nat) (pfx : Option (Int × String × Int)) (label : TLabel) : Subnet :=
   let (v4, base, hb) := drawFields n
   { isV4 := v4, base := base, ones := 32 - hb, weight := weight, port := port, pfx := pfx, label := label }
